@@ -203,6 +203,12 @@ def check_order(errors, trie):
         for el in [c for c in (elements(x) if ok else [])] + list(ABSENT):
             if el not in want and el in node:
                 problems.append(("children|contains-claims-error-free-element", {"at": list(pre), "element": el}))
+        # membership is a read-only question: after asking it (also about error-free and absent elements)
+        # iteration still reports exactly the elements with errors
+        it2 = list(iter(node))
+        if set(it2) != want or len(it2) != len(set(it2)):
+            problems.append(("children|iteration-changed-by-membership-tests",
+                             {"at": list(pre), "got": it2, "expected": sorted(want, key=repr)}))
         n = trie.below[pre]
         te = node.total_errors
         if te != n:
